@@ -838,10 +838,10 @@ def self_test():
 
 
 SUBCHECKS = [
-    SubCheck("field", field_case(), fn_field, quick=4000, thorough=15000),
-    SubCheck("renumber_vertices", renumber_case("vertices"), fn_renumber, quick=800, thorough=3000),
-    SubCheck("renumber_faces", renumber_case("faces"), fn_renumber, quick=800, thorough=3000),
-    SubCheck("laplacian", laplacian_case(), fn_laplacian, quick=1000, thorough=3000),
+    SubCheck("field", field_case(), fn_field, quick=4000, thorough=8000),
+    SubCheck("renumber_vertices", renumber_case("vertices"), fn_renumber, quick=800, thorough=1500),
+    SubCheck("renumber_faces", renumber_case("faces"), fn_renumber, quick=800, thorough=1500),
+    SubCheck("laplacian", laplacian_case(), fn_laplacian, quick=1000, thorough=1500),
 ]
 
 
